@@ -17,7 +17,7 @@ import (
 
 // Mutation damages the payload of one block. Positions are per-mille of the payload.
 type Mutation struct {
-	Kind  string `json:"kind"` // flip, subst, swap, zero, copy; hashfill: every byte of the stored hash field of the block := byte(Val)
+	Kind  string `json:"kind"`           // flip, subst, swap, zero, copy; hashfill: every byte of the stored hash field of the block := byte(Val)
 	Body  bool   `json:"body,omitempty"` // positions are relative to the whole block body (mode byte, pre-entropy length, stored hash, coded data) instead of the coded data only
 	Block int    `json:"block"`
 	Off   int    `json:"off"`  // 0..999
